@@ -23,6 +23,13 @@ def run(tier, seed):
         rep.add('GLOBAL-EFFECT.locked', '%s:%s' % (fn['name'], q), where(fn, line),
                 '%s: `%s(...)` is executed while holding a static mutex' % (fn['name'], q), ok,
                 None if ok else ['no std::lock_guard/unique_lock on a static mutex is alive at this call'])
+    rep.rule('GLOBAL-EFFECT.nonreentrant', 'no library function calls a C routine that keeps state in a hidden process-wide static '
+             '(strtok, localtime, rand, strerror, ...): such a call is shared mutable state between threads (reentrant *_r variants, '
+             'iostreams and <random> engines owned by the caller are fine)')
+    libkeys = [k for k, f in prog.functions.items() if '/bxdecay0/' in f.get('file', '')]
+    nr = statics.nonreentrant_sites(prog, libkeys)
+    rep.add('GLOBAL-EFFECT.nonreentrant', 'library', 'bxdecay0/', '%d library functions scanned: no call of a non-reentrant C routine' % len(libkeys),
+            not nr, ['%s calls %s at line %s' % (f['qn'], q, l) for f, q, l in nr] or None)
     rep.rule('OWNERSHIP', 'no class of the library holds a raw pointer or reference to state shared between instances: '
              'pointer/reference members are listed with the reason they are per-instance')
     allow = {('(anonymous namespace)::pdf_interpolator_type', 'choice'): 'pointer to a constant GSL type descriptor',
